@@ -676,8 +676,13 @@ func c13Short(s []byte) string {
 
 func c13JudgeScript(c *mon.Ctx, in *c13Script) {
 	c.Eval(1)
-	s := []byte(in.Script)
+	s := mon.Exact(in.Script) // capacity == length
 	scr := bscript.NewFromBytes(s)
+	defer func() { // rendering and tokenising are reads: the script is afterwards what it was
+		if !bytes.Equal(s, in.Script) {
+			c.Violationf("C13:codec-changed-the-script", "after hex / JSON / ASM / DecodeParts / Parse the script is %s, it was %s", c13Short(s), c13Short(in.Script))
+		}
+	}()
 	toks, tr := refcodec.Tokenize(s)
 	wellFormed := tr < 0
 	hasRet := false // an OP_RETURN instruction among the complete tokens
